@@ -116,12 +116,20 @@ type C18Trace struct {
 }
 
 var c18Ops = []string{"new", "newwith", "newbatch", "newbatchq", "add", "assign", "remove", "addbatch", "addbatchq", "rembatch", "rembatchq",
-	"rmentities", "get", "bg-new", "bg-xchg", "bg-rm", "bg-setrel", "map1", "exchange", "filter", "resource"}
-var c18Weights = []int{10, 6, 4, 4, 10, 6, 8, 4, 4, 4, 3, 2, 10, 10, 8, 5, 5, 8, 8, 14, 3}
+	"rmentities", "get", "bg-new", "bg-xchg", "bg-rm", "bg-setrel", "map1", "exchange", "filter", "resource", "lockedop"}
+var c18Weights = []int{10, 6, 4, 4, 10, 6, 8, 4, 4, 4, 3, 2, 10, 10, 8, 5, 5, 8, 8, 14, 3, 6}
 
-func GenC18Trace(seed uint64, thorough bool) *C18Trace {
+// c18LockedWeights: the profile used by the C09 check (generic structural entry points on a locked world).
+var c18LockedWeights = []int{6, 3, 2, 2, 6, 3, 4, 2, 2, 2, 2, 1, 3, 10, 6, 3, 3, 3, 4, 2, 1, 40}
+
+func GenC18Trace(seed uint64, thorough bool) *C18Trace { return genC18Trace(seed, thorough, false) }
+
+func genC18Trace(seed uint64, thorough, lockedProfile bool) *C18Trace {
 	r := NewRng(seed, StreamPlan)
 	tr := &C18Trace{Property: "C18", Build: "special-C18", Seed: seed}
+	if lockedProfile {
+		tr.Property = "C09"
+	}
 	tr.N = 1 + r.Intn(12)
 	tr.Perm = r.Intn(3)
 	tr.CapInc = []int{1, 2, 3, 8, 128}[r.Intn(5)]
@@ -141,7 +149,11 @@ func GenC18Trace(seed uint64, thorough bool) *C18Trace {
 	sched := NewRng(seed, StreamSched)
 	ops := NewRng(seed, StreamOps)
 	for i := 0; i < n; i++ {
-		st := Step{Op: c18Ops[sched.Pick(c18Weights)], A: make([]uint32, 48)}
+		wts := c18Weights
+		if lockedProfile {
+			wts = c18LockedWeights
+		}
+		st := Step{Op: c18Ops[sched.Pick(wts)], A: make([]uint32, 48)}
 		for j := range st.A {
 			st.A[j] = ops.U32()
 		}
@@ -198,6 +210,8 @@ type c18Run struct {
 	step     int
 	Concrete []string
 	stats    map[string]int
+	dead     []ecs.Entity
+	locked   bool
 }
 
 func typeIndex(t reflect.Type) int {
@@ -253,6 +267,17 @@ func (r *c18Run) pick(c *cursor) (ecs.Entity, bool) {
 		return ecs.Entity{}, false
 	}
 	return l[k%len(l)], true
+}
+
+// maybeDead replaces e by a removed (possibly recycled) handle now and then: the generic call and its ID-based
+// equivalent must refuse it alike. Only used where every use of the entity happens inside both().
+func (r *c18Run) maybeDead(c *cursor, e ecs.Entity) ecs.Entity {
+	k := c.n(1 << 20)
+	if k%16 == 0 && len(r.dead) > 0 {
+		r.stats["dead-entity-offered"]++
+		return r.dead[k%len(r.dead)]
+	}
+	return e
 }
 
 // pickWhere prefers an entity for which pred holds in K.
@@ -604,6 +629,7 @@ func (r *c18Run) doStep(st *Step) *Violation {
 		if !ok {
 			return nil
 		}
+		e = r.maybeDead(c, e)
 		if st.Op == "assign" {
 			vals := r.vals(len(r.mapT))
 			v, _ := r.both("MapN.Assign", func() { r.drv.Assign(e, vals) }, func() { K.Assign(e, r.kComps(vals)...) })
@@ -623,6 +649,7 @@ func (r *c18Run) doStep(st *Step) *Violation {
 		if !ok {
 			return nil
 		}
+		e = r.maybeDead(c, e)
 		v, _ := r.both("MapN.Remove", func() { r.drv.Remove(e, nil) }, func() { K.Remove(e, kids...) })
 		return v
 	case "addbatch", "addbatchq":
@@ -726,6 +753,7 @@ func (r *c18Run) doStep(st *Step) *Violation {
 		if !ok {
 			return nil
 		}
+		e = r.maybeDead(c, e)
 		var ptrs, ptrs2 []unsafe.Pointer
 		v, p := r.both("MapN.Get", func() { ptrs = r.drv.Get(e); ptrs2 = r.drv.GetUnchecked(e) }, func() {
 			for _, id := range kids {
@@ -786,7 +814,13 @@ func (r *c18Run) doStep(st *Step) *Violation {
 		if !ok {
 			return nil
 		}
-		v, _ := r.both("World.RemoveEntity (background)", func() { G.RemoveEntity(e) }, func() { K.RemoveEntity(e) })
+		v, p := r.both("World.RemoveEntity (background)", func() { G.RemoveEntity(e) }, func() { K.RemoveEntity(e) })
+		if v == nil && !p {
+			r.dead = append(r.dead, e)
+			if len(r.dead) > 50 {
+				r.dead = r.dead[25:]
+			}
+		}
 		return v
 	case "bg-setrel":
 		e, ok := r.pickWhere(c, func(e ecs.Entity) bool { return K.Has(e, r.K.ids[c18RelA]) })
@@ -796,6 +830,8 @@ func (r *c18Run) doStep(st *Step) *Violation {
 		tg, _ := r.pick(c)
 		v, _ := r.both("Relations.Set (background)", func() { G.Relations().Set(e, r.G.ids[c18RelA], tg) }, func() { K.Relations().Set(e, r.K.ids[c18RelA], tg) })
 		return v
+	case "lockedop":
+		return r.opLocked(c)
 	case "map1":
 		return r.opMap1(c)
 	case "exchange":
@@ -806,6 +842,50 @@ func (r *c18Run) doStep(st *Step) *Violation {
 		return r.opResource(c)
 	}
 	return nil
+}
+
+// opLocked: a structural generic call while a query is open in both worlds. The ID-based equivalent is refused by the
+// lock, so the generic call has to be refused too, and nothing may change (C09 for the generic entry points).
+func (r *c18Run) opLocked(c *cursor) *Violation {
+	gq := r.G.w.Query(ecs.All())
+	kq := r.K.w.Query(ecs.All())
+	r.locked = true
+	defer func() {
+		r.locked = false
+		func() { defer func() { recover() }(); gq.Close() }()
+		func() { defer func() { recover() }(); kq.Close() }()
+	}()
+	ops := []string{"new", "newwith", "newbatch", "newbatchq", "add", "assign", "remove", "addbatch", "addbatchq", "rembatch", "rembatchq", "rmentities", "exchange", "map1"}
+	op := ops[c.n(len(ops))]
+	sub := Step{Op: op, A: c.a[c.i:]}
+	if len(sub.A) < 8 {
+		sub.A = c.a
+	}
+	r.stats["locked:"+op]++
+	v := r.doStep(&sub)
+	if v != nil {
+		v.Msg = "on a locked world: " + v.Msg
+		v.Also = append(v.Also, "lock-not-enforced")
+		return v
+	}
+	if !r.G.w.IsLocked() || !r.K.w.IsLocked() {
+		v := r.viol("a generic %s call released the world lock held by an open query", op)
+		v.Also = append(v.Also, "lock-not-enforced")
+		return v
+	}
+	r.stats["locked-generic-calls"]++
+	return nil
+}
+
+func containsStr(s, sub string) bool {
+	return len(sub) <= len(s) && (func() bool {
+		for i := 0; i+len(sub) <= len(s); i++ {
+			if s[i:i+len(sub)] == sub {
+				return true
+			}
+		}
+		return false
+	})()
 }
 
 // opMap1: generic.Map[T] for a plain type and for the relation type.
